@@ -90,6 +90,26 @@ def encodeDoc {β} (T : Tables) (ascii : Bool) (label : β → List Nat) (quads 
     List Nat :=
   qs.flatMap (fun q => (encodeQuad T ascii label quads q).getD [])
 
+/-! ### Encoder options (`EncoderConfig.apply` folded over the option list of `NewEncoder`) -/
+
+/-- One `EncoderOption`: which fields it sets (`SetASCII`, `SetBlankNodeStringProvider`). -/
+structure EncOpt where
+  ascii : Option Bool
+  prov : Option Nat
+  deriving Repr, DecidableEq
+
+/-- `apply`: a field is overwritten only when the option sets it. -/
+def EncOpt.apply (o d : EncOpt) : EncOpt :=
+  { ascii := match o.ascii with | some a => some a | none => d.ascii
+    prov := match o.prov with | some p => some p | none => d.prov }
+
+/-- `NewEncoder(w, opts...)`: compiled options. -/
+def compileOpts (opts : List EncOpt) : EncOpt := opts.foldl (fun d o => o.apply d) ⟨none, none⟩
+
+/-- `newEncoder`: effective ASCII flag (default off) and labeller (`none` = the default `b%d` provider). -/
+def effectiveAscii (opts : List EncOpt) : Bool := (compileOpts opts).ascii.getD false
+def effectiveProv (opts : List EncOpt) : Option Nat := (compileOpts opts).prov
+
 /-! ## Decoder -/
 
 /-- How the rune stream ends: clean EOF or a reader error. -/
